@@ -494,7 +494,11 @@ class NumpyMixin:
         self.assumptions_used.add("libm %s: uninterpreted real function with the axioms listed in nplib.ufun" % name)
         if name == "sqrt":
             domain(x >= 0, "sqrt-domain")
-            axiom(z3.Implies(x >= 0, z3.And(r >= 0, r * r == x)))
+            if "mul" in getattr(self, "abstract", ()):
+                # products are uninterpreted in this function: keep the linear facts only (sign, zero)
+                axiom(z3.Implies(x >= 0, z3.And(r >= 0, (r == 0) == (x == 0))))
+            else:
+                axiom(z3.Implies(x >= 0, z3.And(r >= 0, r * r == x)))
         elif name in ("sin", "cos"):
             s = ufunc("libm_sin", R, R)(x)
             c = ufunc("libm_cos", R, R)(x)
